@@ -1,5 +1,6 @@
 import LP.Props.C05
 import LP.Props.C03Fp
+import LP.Props.C05ModP
 #print axioms LP.Factor.toPolyZ_mul
 #print axioms LP.Factor.toPolyZ_pow
 #print axioms LP.Factor.toPolyZ_trim
@@ -8,3 +9,5 @@ import LP.Props.C03Fp
 #print axioms LP.QPoly.C05_sqfree_cert_sound
 #print axioms LP.QPoly.C03_coprimeCert_sound
 #print axioms LP.FPoly.coprimeCert_sound
+#print axioms LP.C05_irreducible_of_mod_p
+#print axioms LP.C05_irreducible_of_degree_one
